@@ -137,7 +137,7 @@ def families(tier, seed):
             def run(sh=sh, fml=fml):
                 return harness.verify(bn.h_formula(fml), sh, kind='context')
             out.append(dict(name=f'add_expr [{cname}] {fml}', run=run, label='per-shape'))
-        for ops, fml in [('foo == x + y > 3\nbar == foo /\\ b', r'bar \/ (z = 1)')]:
+        for ops, fml in [('foo == x + y > 3\nbar == foo /\\ b', r'bar \/ (z = 1)')] + [d for d in bn.DEFINITIONS if "'" not in d[0]]:
             def run(sh=sh, fml=fml, ops=ops):
                 return harness.verify(bn.h_formula(fml, with_ops=ops), sh, kind='context')
             out.append(dict(name=f'add_expr with defined operators [{cname}] {fml}', run=run, label='per-shape'))
